@@ -1,4 +1,5 @@
 """C11 — nearest neighbour picks the source pixel under each destination centre (clauses)."""
+import re
 from ..engines import axis, deps, index_rules, formulas
 from ..engines.index_rules import iter_source
 from ..engines.validators import closure_return
@@ -84,6 +85,130 @@ def copy_only(rep, prog, rule):
     rep.floor(rule, "pixel stores in resample_nearest", n, 1)
 
 
+def step_unquantised(rep, prog, rule):
+    rep.rule(rule, "in every implementation of iter_rows_with_step (closures included) and in "
+             "resample_nearest a float is truncated to an integer only to obtain a row / column index "
+             "or a count: no f64 value is first SCALED BY A CONSTANT and then truncated -- the "
+             "conversion of the start or the step into fixed point (`(v * 2^32) as u64`), which "
+             "quantises the step and lets the accumulated position drift below the exact one "
+             "(i * 2^-32 after i rows: for a destination of a few hundred thousand rows some rows come "
+             "from the source row above the right one)")
+    n = 0
+    scope = [f for f in prog.fns.values()
+             if re.search(r"iter_rows_with_step|(^|::)resample_nearest", f.name)]
+    for f in sorted(scope, key=lambda x: x.id):
+        sym = None
+        for b, blk in enumerate(f.blocks):
+            if blk["c"]:
+                continue
+            for j, st in enumerate(blk["s"]):
+                if not (st[0] == "a" and st[2][0] == "cast" and st[2][1] == "FloatToInt"):
+                    continue
+                n += 1
+                rep.touch(f)
+                sym = sym or Sym(f)
+                e = sym.operand(st[2][2], (b, j))
+                while isinstance(e, tuple) and e and e[0] in ("copy", "ref", "deref"):
+                    e = e[1]
+                key = "%s|%s" % (f.name, fmt(e)[:50])
+                scaled = None
+                if isinstance(e, tuple) and e and e[0] == "bin" and e[1] == "Mul":
+                    for x, c in ((e[2], e[3]), (e[3], e[2])):
+                        if _is_constant(c) and not _is_constant(x):
+                            scaled = (x, c)
+                if scaled:
+                    rep.bad(rule, key + "|fixed-point", st[3],
+                            "%s truncates %s: a float scaled by the constant %s and cut to an integer is a "
+                            "fixed-point copy of that value (the start / step of the row positions): the "
+                            "quantised step drifts away from floor(top + (y + 0.5) * scale)" % (
+                                f.name, fmt(e)[:80], fmt(scaled[1])[:30]))
+                else:
+                    rep.ok(rule, key, st[3], "truncation of a position or a count")
+    rep.floor(rule, "float-to-integer truncations in the nearest-neighbour path", n, 6)
+
+
+def _is_constant(e):
+    """an expression without parameters, locals or calls on them (literals, casts, shifts of literals)"""
+    if not isinstance(e, tuple) or not e:
+        return True
+    if e[0] in ("param", "local", "call", "callat", "field", "unknown", "index"):
+        return False
+    return all(_is_constant(x) for x in e if isinstance(x, tuple))
+
+
+def source_columns(rep, prog, rule):
+    rep.rule(rule, "the functions that read the rows of the (uncropped) source view themselves -- "
+             "resample_nearest, copy_image / iter_cropped_rows -- address every such row with a column "
+             "(index, range, get_unchecked) that is computed from the crop box's `left` (taint through "
+             "locals, tables, closures and iterators): a row access whose column does not depend on "
+             "`left` -- `&in_row[..dst_width]` in a 'the width is unchanged' shortcut -- reads the "
+             "columns 0.. of the source instead of the crop's")
+    from .c14 import _taint
+    n = 0
+    for f in sorted(prog.fns.values(), key=lambda x: x.id):
+        if f.kind == "closure" or not re.search(r"(^|::)(resample_nearest|iter_cropped_rows|copy_image)$", f.name):
+            continue
+        left_seeds, row_seeds = set(), set()
+        for blk in f.blocks:
+            if blk["c"]:
+                continue
+            for st in blk["s"]:
+                if st[0] == "a" and st[2][0] == "use" and st[2][1][0] in ("c", "m"):
+                    pl = st[2][1][1]
+                    if any(isinstance(el, list) and el[0] == "f" and el[2] == "left" for el in pl[1:]):
+                        left_seeds.add(st[1][0])
+            t = blk["t"]
+            if t[0] == "call" and t[3]:
+                m = t[1].get("method") or (t[1].get("name") or "").rsplit("::", 1)[-1]
+                if m in ("iter_rows", "iter_rows_with_step", "iter_2_rows", "iter_4_rows"):
+                    row_seeds.add(t[3][0])
+        if not row_seeds:
+            continue
+        rep.touch(f)
+        if not left_seeds:
+            rep.unk(rule, "%s|left" % f.name, f.loc, "the function reads source rows but never the crop box's left")
+            continue
+        lt, l_op = _taint(prog, f, left_seeds)
+        rt, r_op = _taint(prog, f, row_seeds)
+        owners = [(f, l_op, r_op)]
+        for g in f.closures():
+            lf = set()
+            rf = set()
+            for blk in f.blocks:
+                for st in blk["s"]:
+                    if st[0] == "a" and st[2][0] == "agg" and st[2][1] == "closure" and st[2][2] == g.id:
+                        for i, o in enumerate(st[2][4] or []):
+                            if l_op(o):
+                                lf.add(i)
+                            if r_op(o):
+                                rf.add(i)
+            lt2, l2 = _taint(prog, g, set(), lf)
+            rt2, r2 = _taint(prog, g, set(), rf)
+            # a closure that receives the row as its parameter: `.map(move |row| row.get_unchecked(a..b))`
+            if not rf and g.arg_count >= 2:
+                rt2, r2 = _taint(prog, g, {2})
+            owners.append((g, l2, r2))
+        for (g, lo, ro) in owners:
+            for c in g.calls():
+                m = c.method or (c.name or "").rsplit("::", 1)[-1]
+                if m not in ("get_unchecked", "index", "get", "split_at", "get_unchecked_mut"):
+                    continue
+                if not c.args or not ro(c.args[0]):
+                    continue
+                n += 1
+                key = "%s|%s@%s" % (f.name, m, (c.at or "").rsplit(":", 1)[0].rsplit("/", 1)[-1])
+                key = "%s|%s" % (f.name, m)
+                if any(lo(a) for a in c.args[1:]):
+                    rep.ok(rule, key, c.at, "the column depends on the crop box's left")
+                else:
+                    rep.bad(rule, key + "|left-dropped", c.at,
+                            "%s reads a source row with `%s` at a column that does not depend on the crop "
+                            "box's left: for a crop with left > 0 the pixels come from the wrong columns "
+                            "(the rows handed out by iter_rows / iter_rows_with_step are rows of the whole "
+                            "source view)" % (f.name, m))
+    rep.floor(rule, "column accesses of source rows", n, 2)
+
+
 def run(rep, tier):
     cfgs = ["x86"] if tier == "quick" else ["x86", "x86-rayon", "arm", "wasm"]
     for cfg, prog in programs(cfgs):
@@ -93,6 +218,8 @@ def run(rep, tier):
         rep.call(copy_only, rep, prog, "C11.copy")
         rep.call(c07.nearest_no_alpha, rep, prog, "C11.no-alpha")
         rep.call(formulas.nearest_formula, rep, prog, "C11.formula")
+        rep.call(step_unquantised, rep, prog, "C11.step-unquantised")
+        rep.call(source_columns, rep, prog, "C11.source-columns")
         from . import c09
         rep.call(c09.state_fields, rep, prog, "C11.stateless")
         from ..engines import validators
